@@ -126,6 +126,7 @@ func cmdCheck(args []string) int {
 	violationLines := []string{}
 	knownLines := []string{}
 	knownConfirmed := []string{}
+	crossChecks := []interface{}{}
 	validated, validationMismatch := 0, 0
 	replays := 0
 	nativeS := 0.0
@@ -309,6 +310,26 @@ func cmdCheck(args []string) int {
 			nativeS += time.Since(tn).Seconds()
 		}
 
+		// ---- solver cross-check: the whole unit once more with the other back end as primary ----
+		if tc.Cross {
+			tx := time.Now()
+			u2 := *u
+			if u.Solver == "cvc5int" {
+				u2.Solver = "z3"
+			} else {
+				u2.Solver = "cvc5int"
+			}
+			tcc := *tc
+			tcc.Validate = 0
+			r2 := explore(ld, &u2, &tcc, seed, "")
+			same := r2.Paths == res.Paths && r2.Aborted == res.Aborted && r2.Asserts == res.Asserts && r2.AssertsUnsat == res.AssertsUnsat && len(r2.Viols) == len(res.Viols) && len(r2.Unsup) == 0
+			fmt.Printf("  cross-check with %s as primary solver: paths=%d asserts=%d unsat=%d counterexamples=%d -> %v (%.1fs)\n", u2.Solver, r2.Paths, r2.Asserts, r2.AssertsUnsat, len(r2.Viols), same, time.Since(tx).Seconds())
+			crossChecks = append(crossChecks, map[string]interface{}{"unit": u.Name, "other_primary": u2.Solver, "agree": same, "paths": r2.Paths, "asserts_unsat": r2.AssertsUnsat, "wall_s": time.Since(tx).Seconds()})
+			if !same {
+				inconclusive = append(inconclusive, u.Name+": solver back ends disagree (z3 vs cvc5 bv-as-int)")
+			}
+		}
+
 		// ---- canaries ----
 		if !*noCanary {
 			for i := range u.Canaries {
@@ -368,6 +389,7 @@ func cmdCheck(args []string) int {
 	} else if len(inconclusive) > 0 {
 		status = 2
 	}
+	crossChecksOut = crossChecks
 	if err := writeEvidence(spec, *tier, seed, results, canaries, knownConfirmed, inconclusive, len(violationLines), validated, replays, nativeS, wall, status); err != nil {
 		fmt.Println("ERROR: writing evidence:", err)
 		return 2
@@ -414,3 +436,5 @@ func firstLine(s string) string {
 }
 
 var _ = json.Marshal
+
+var crossChecksOut []interface{}
